@@ -14,6 +14,7 @@ from syntax import parser
 from syntax import printer
 from syntax import pprint
 from syntax.settings import settings, global_setting
+from util.name import get_variant_name, get_variant_names
 
 
 class ItemException(Exception):
@@ -601,13 +602,16 @@ class Inductive(Item):
             res.append(extension.Theorem(rule['name'], Thm(rule['prop'])))
             res.append(extension.Attribute(rule['name'], 'hint_backward'))
 
-        # Case rule
+        # Case rule. The variables it introduces must be different from the
+        # variables of the rules, which are bound by quantifiers below.
+        rule_names = [v.name for rule in self.rules for v in rule['prop'].get_vars()]
         Targs, _ = self.type.strip_type()
+        var_names = get_variant_names(["_a" + str(i+1) for i in range(len(Targs))], rule_names)
         vars = []
-        for i, Targ in enumerate(Targs):
-            vars.append(Var("_a" + str(i+1), Targ))
+        for nm, Targ in zip(var_names, Targs):
+            vars.append(Var(nm, Targ))
 
-        P = Var("P", BoolType)
+        P = Var(get_variant_name("P", rule_names + var_names), BoolType)
         pred = Const(self.name, self.type)
         assum0 = pred(*vars)
         assums = []
